@@ -42,7 +42,9 @@ def gen_cases(ctx):
         for n in lens:
             appends.append(list(range(k, k + n)))
             k += n
-        out.append((cap, appends, width))
+        # histories: to_array() is also observed after a PRNG-chosen subset of the appends (always after the last)
+        reads = sorted(i for i in range(1, len(appends)) if r.random() < 0.5)
+        out.append((cap, appends, width, reads))
     c["raa"] = out
     dv = []
     M = ctx.n(11, 15)
@@ -142,18 +144,25 @@ def run(ctx):
     texts.append(("c19_chunks", hdr + "Definition cases : list (list (list Z) * list (list (Z * (Z * Z)))) := [%s].\nEval vm_compute in (bad chk_chunks cases).\n" % ";\n".join(L), L, "chunks"))
 
     L = []
-    for (cap, appends, width), o in zip(cases["raa"], obs["raa"]):
-        flat = [x for a in appends for x in a]
+    for (cap, appends, width, reads), o in zip(cases["raa"], obs["raa"]):
         over = sum(len(a) for a in appends) > cap
-        ctx.case(("raa", cap, repr(appends), width), nontrivial=over and len(appends) >= 2,
-                 sample={"capacity": cap, "appends": appends, "impl": o})
+        ctx.case(("raa", cap, repr(appends), width, repr(reads)), nontrivial=over and len(appends) >= 2,
+                 sample={"capacity": cap, "appends": appends, "to_array_after": reads + [len(appends)], "impl": o})
         ctx.count("raa_overflow" if over else "raa_fits")
-        if "error" in o or o["rows"] != flat or not o["cols_ok"]:
-            ctx.add_failure("C19.row_appendable", "RowAppendableArray(%d) after appends %s gives %s, not the concatenation" % (cap, appends, o),
-                            {"oracle": "raa", "args": [cap, appends, width], "impl": o})
+        ctx.count("raa_intermediate_reads", len(reads))
+        bad = "error" in o
+        if not bad:
+            for rd in o["reads"]:
+                flat = [x for a in appends[:rd["k"]] for x in a]
+                if rd["rows"] != flat or not rd["cols_ok"]:
+                    bad = True
+        if bad:
+            ctx.add_failure("C19.row_appendable", "RowAppendableArray(%d): appends %s with to_array() after %s gives %s, not the concatenation of the rows appended so far" % (cap, appends, reads, o),
+                            {"oracle": "raa", "args": [cap, appends, width, reads], "impl": o})
             continue
-        L.append("(%d, %s, %s)" % (cap, "[" + "; ".join(zlist(a) for a in appends) + "]", zlist(o["rows"])))
-    texts.append(("c19_raa", hdr + "Definition cases : list (Z * list (list Z) * list Z) := [%s].\nEval vm_compute in (bad chk_raa cases).\n" % ";\n".join(L), L, "raa"))
+        L.append("(%d, %s, %s)" % (cap, "[" + "; ".join(zlist(a) for a in appends) + "]",
+                                   "[" + "; ".join("(%d, %s)" % (rd["k"], zlist(rd["rows"])) for rd in o["reads"]) + "]"))
+    texts.append(("c19_raa", hdr + "Definition cases : list (Z * list (list Z) * list (Z * list Z)) := [%s].\nEval vm_compute in (bad chk_raa cases).\n" % ";\n".join(L), L, "raa"))
 
     L = []
     for (a, b, mx, f), o in zip(cases["divisible"], obs["divisible"]):
